@@ -81,6 +81,7 @@ C01_AddPathExact ==
         IN /\ \A i \in 1..Len(O) : Strip(O[i]) \in E
            /\ \A i, j \in 1..Len(O) : i # j => (O[i].id # O[j].id /\ O[i].src # O[j].src)
            /\ Len(O) = MinOf(SendMax(p), Cardinality(E))
+C15_AddPathAsIfFresh == C01_AddPathExact
 (* each advertised route keeps ONE identifier for as long as the session lasts *)
 C01_StableIds ==
   (hasObs /\ "mviews" \in DOMAIN pobs /\ l > 1) =>
